@@ -117,6 +117,42 @@ theorem C06_remove_reported (s : S α) (T : α → Prop) (x : α) (hv : PosOK T 
   rw [hout] at hn
   exact (List.nodup_cons.mp hn).1
 
+/-- **Remove(p) removes only that element: the others remain** (and remain tracked).  With `p` the
+reported position of a held tracked `x`: the array after `Remove(p)` together with `x` is a permutation of
+the array before; an element is held afterwards iff it was held before and is not `x`; exactly one slot
+disappears; and every remaining tracked element still sits at its last reported position. -/
+theorem C06_remove_others_remain (s : S α) (T : α → Prop) (x : α) (hv : PosOK T s.h) (hx : x ∈ s.h.data)
+    (ht : T x) :
+    ∃ p, lastPos s.h.log x = some p ∧
+      (x :: (step cfg lt s (.remove p)).1.h.data).Perm s.h.data ∧
+      (∀ y, y ∈ (step cfg lt s (.remove p)).1.h.data ↔ y ∈ s.h.data ∧ y ≠ x) ∧
+      (step cfg lt s (.remove p)).1.h.data.length + 1 = s.h.data.length ∧
+      PosOK T (step cfg lt s (.remove p)).1.h := by
+  obtain ⟨p, hp, rfl⟩ := List.getElem_of_mem hx
+  have hp' : p < s.h.len := hp
+  have hperm := pop_perm hc (s.lt lt) s.h p hp'
+  have hout := pop_out cfg (s.lt lt) s.h p
+  rw [get_eq _ _ hp'] at hout
+  rw [hout] at hperm
+  have hst : (step cfg lt s (.remove p)).1.h = (pop cfg (s.lt lt) s.h p).1 := by
+    simp only [step, if_neg (Nat.not_le.mpr hp')]
+  have hn := hperm.nodup_iff.mpr hv.1
+  refine ⟨p, hv.2 p hp ht, ?_, ?_, ?_, ?_⟩
+  · rw [hst]; exact hperm
+  · intro y
+    rw [hst]
+    constructor
+    · intro hy
+      exact ⟨hperm.subset (List.mem_cons_of_mem _ hy), fun e => (List.nodup_cons.mp hn).1 (e ▸ hy)⟩
+    · rintro ⟨hy, hne⟩
+      rcases List.mem_cons.mp (hperm.mem_iff.mpr hy) with e | h
+      · exact absurd e hne
+      · exact h
+  · rw [hst]
+    have := hperm.length_eq
+    simpa using this
+  · exact step_posOK hc lt s T (.remove p) trivial hv
+
 /-! ### histories -/
 
 def runS (cfg : Cfg) (lt : α → α → Bool) (s : S α) (ops : List (Op α)) : S α :=
@@ -175,5 +211,11 @@ example : Distinct Drv.C05.cfg Drv.C05.ltKey ({} : S Nat) exOps := by decide
 example : (runS Drv.C05.cfg Drv.C05.ltKey ({} : S Nat) exOps).h.data = [55, 35, 25, 1, 15, 5] := by decide
 example : lastPos (runS Drv.C05.cfg Drv.C05.ltKey ({} : S Nat) exOps).h.log 1 = some 3 := by decide
 example : trackedAfter (fun _ => False) exOps 15 := by simp [trackedAfter, exOps, tracked]
+
+/-- `C06_remove_others_remain` on a concrete state: removing the tracked element 15 (reported at offset 4)
+from `[55, 35, 25, 1, 15, 5]` leaves the other five -/
+example : lastPos (runS Drv.C05.cfg Drv.C05.ltKey ({} : S Nat) exOps).h.log 15 = some 4 ∧
+    (step Drv.C05.cfg Drv.C05.ltKey (runS Drv.C05.cfg Drv.C05.ltKey ({} : S Nat) exOps) (.remove 4)).1.h.data =
+      [55, 35, 25, 1, 5] := by decide
 
 end MdsVerif.Props.C06
